@@ -879,6 +879,9 @@ ClientSocketContextPushDeferredIfNeeded(Http::StreamPointer deferredRequest, Con
         /** NO data is allowed to have been sent. */
         assert(deferredRequest->http->out.size == 0);
         /** defer now. */
+        // the stored reply is handed over exactly once: without this, a later
+        // kick() or 1xx completion would try to push the same reply again
+        deferredRequest->flags.deferred = 0;
         clientSocketRecipient(deferredRequest->deferredparams.node,
                               deferredRequest->http,
                               deferredRequest->deferredparams.rep,
